@@ -1,8 +1,8 @@
 (* Stream-level decode = denote: concrete streams.
    - [ok_stream]: the hypotheses of decode_denote are satisfiable by a stream that exercises an explicit
      timestamp, a compressed-timestamp record, a redefinition of a local type and a local_date_time field;
-   - three witnesses that the side condition [no_time_quirk] cannot be dropped: on each the faithful model
-     (and the library: both C12 known findings) produces a File that differs from the reference semantics. *)
+   - the three former witnesses of the C12 time defects, on which the repaired decoder now agrees with the
+     reference semantics; the witness that the reserved-bits condition is needed. *)
 From Coq Require Import NArith ZArith List Bool.
 From FitV Require Import Model.Values Model.Bytes Model.Base Model.Profile Model.Reflect Model.IO
   Model.Header Model.Route Model.Components Model.Decode Spec.FitSyntax Spec.RouteSpec Gen.Consts
@@ -44,9 +44,6 @@ Definition spec_slots (rs : list record) : option (list (list msg)) :=
   end.
 Definition model_slots (rs : list record) : option (list (list msg)) :=
   match model_run rs with ROk _ _ s => Some (f_slots (ds_file s)) | _ => None end.
-Definition model_quirks (rs : list record) : list N :=
-  match model_run rs with ROk _ _ s => ds_quirks s | _ => [] end.
-
 Fixpoint msgs_eqb (a b : list msg) : bool :=
   match a, b with
   | [], [] => true
@@ -64,11 +61,11 @@ Definition agree (rs : list record) : bool :=
 
 (* the hypotheses of decode_denote hold for ok_stream (and its conclusion, recomputed) *)
 Example ok_stream_in_domain :
-  starts_with_file_id ok_stream = true /\ stream_wf ok_stream = true /\ no_time_quirk ok_stream = true /\
+  starts_with_file_id ok_stream = true /\ stream_wf ok_stream = true /\
   (exists ss f2 g1, denote ok_stream = Some ss /\ start_file w_hdr g_init (hd dummy_msg (ss_msgs ss)) = Some (f2, g1)) /\
   agree ok_stream = true.
 Proof.
-  split; [vm_compute; reflexivity|]. split; [vm_compute; reflexivity|]. split; [vm_compute; reflexivity|].
+  split; [vm_compute; reflexivity|]. split; [vm_compute; reflexivity|].
   split; [|vm_compute; reflexivity].
   destruct (denote ok_stream) as [ss|] eqn:E; [|vm_compute in E; discriminate].
   destruct (start_file w_hdr g_init (hd dummy_msg (ss_msgs ss))) as [[f2 g1]|] eqn:E2.
@@ -76,41 +73,18 @@ Proof.
   - exfalso. revert E2. vm_compute in E. injection E as <-. vm_compute. discriminate.
 Qed.
 
-(* C12 known finding local_sets_reference: without the side condition the theorem is false *)
-Theorem decode_denote_local_first_refuted :
-  stream_wf w_local_first = true /\ starts_with_file_id w_local_first = true /\
-  (exists a b, spec_slots w_local_first = Some a /\ model_slots w_local_first = Some b) /\
-  agree w_local_first = false /\ no_time_quirk w_local_first = false /\
-  In Q_LOCAL_SETS_REF (model_quirks w_local_first).
-Proof.
-  split; [vm_compute; reflexivity|]. split; [vm_compute; reflexivity|].
-  split; [eexists; eexists; split; vm_compute; reflexivity|].
-  split; [vm_compute; reflexivity|]. split; [vm_compute; reflexivity|]. vm_compute. auto.
-Qed.
-
-(* C12 known finding ts_zero_no_reference *)
-Theorem decode_denote_ts_zero_refuted :
-  stream_wf w_ts_zero = true /\ starts_with_file_id w_ts_zero = true /\
-  (exists a b, spec_slots w_ts_zero = Some a /\ model_slots w_ts_zero = Some b) /\
-  agree w_ts_zero = false /\ no_time_quirk w_ts_zero = false /\
-  In Q_TS_ZERO (model_quirks w_ts_zero).
-Proof.
-  split; [vm_compute; reflexivity|]. split; [vm_compute; reflexivity|].
-  split; [eexists; eexists; split; vm_compute; reflexivity|].
-  split; [vm_compute; reflexivity|]. split; [vm_compute; reflexivity|]. vm_compute. auto.
-Qed.
-
-(* the same defect reached without any literal 0 on the wire: the compressed step wraps the reference to 0
-   (the model raises the same quirk tag) *)
-Theorem decode_denote_wrap_zero_refuted :
-  stream_wf w_wrap_zero = true /\ starts_with_file_id w_wrap_zero = true /\
-  (exists a b, spec_slots w_wrap_zero = Some a /\ model_slots w_wrap_zero = Some b) /\
-  agree w_wrap_zero = false /\ no_time_quirk w_wrap_zero = false /\ In Q_TS_ZERO (model_quirks w_wrap_zero).
-Proof.
-  split; [vm_compute; reflexivity|]. split; [vm_compute; reflexivity|].
-  split; [eexists; eexists; split; vm_compute; reflexivity|].
-  split; [vm_compute; reflexivity|]. split; [vm_compute; reflexivity|]. vm_compute. auto.
-Qed.
+(* The three streams below were the refutation witnesses of the side condition no_time_quirk while the library had the
+   two C12 time defects (fixed: ac9b0b0, 2f21531). The repaired decoder agrees with the reference semantics on them:
+   they are ordinary members of the domain of decode_denote now. *)
+Example local_first_agrees :
+  stream_wf w_local_first = true /\ starts_with_file_id w_local_first = true /\ agree w_local_first = true.
+Proof. repeat split; vm_compute; reflexivity. Qed.
+Example ts_zero_agrees :
+  stream_wf w_ts_zero = true /\ starts_with_file_id w_ts_zero = true /\ agree w_ts_zero = true.
+Proof. repeat split; vm_compute; reflexivity. Qed.
+Example wrap_zero_agrees :
+  stream_wf w_wrap_zero = true /\ starts_with_file_id w_wrap_zero = true /\ agree w_wrap_zero = true.
+Proof. repeat split; vm_compute; reflexivity. Qed.
 
 (* the reserved bits 5-6 of a base-type byte: types.Base.Known ignores them (so does [compat]) and the validator admits
    the definition, but parseFitField switches on the whole byte and rejects the data record: the side condition
@@ -119,10 +93,10 @@ Definition w_reserved : list record :=
   [w_fileid_def; w_fileid; RDef 1 false 34 [mk_sfdef 6 1 0x22] false []; RData 1 [7] []].
 
 Theorem decode_denote_reserved_bits_refuted :
-  all_bytes (ser_records w_reserved) = true /\ stream_wf w_reserved = false /\ no_time_quirk w_reserved = true /\
+  all_bytes (ser_records w_reserved) = true /\ stream_wf w_reserved = false /\
   (exists a, spec_slots w_reserved = Some a) /\
   match model_run w_reserved with RFail EParseField _ _ => True | _ => False end.
 Proof.
-  split; [vm_compute; reflexivity|]. split; [vm_compute; reflexivity|]. split; [vm_compute; reflexivity|].
+  split; [vm_compute; reflexivity|]. split; [vm_compute; reflexivity|].
   split; [eexists; vm_compute; reflexivity|]. vm_compute. exact I.
 Qed.
